@@ -1170,3 +1170,19 @@ Proof.
       assert (EQ : U = V * tq + (U - P)) by (unfold P; ring).
       split; [apply Z.div_unique with (U - P); [left; lia|exact EQ]|apply Z.mod_unique with tq; [left; lia|exact EQ]].
 Qed.
+
+(** constructors: MaxValue is the largest value of the width, Zero / ZeroUint is 0, OneUint is 1
+    (Set64 / From64 v = mk128 0 v / mk256 0 0 0 v: cast_64_to_128 / cast_64_to_256 above) *)
+Lemma max64_val : W - 1 = 2^64 - 1. Proof. reflexivity. Qed.
+Lemma max128_val : wf128 (mk128 (W - 1) (W - 1)) /\ val128 (mk128 (W - 1) (W - 1)) = W * W - 1.
+Proof. split; [unfold wf128; cbn [h1 h0]; vm_compute; intuition congruence | reflexivity]. Qed.
+Lemma max256_val : wf256 (mk256 (W - 1) (W - 1) (W - 1) (W - 1)) /\ val256 (mk256 (W - 1) (W - 1) (W - 1) (W - 1)) = W4 - 1.
+Proof. split; [unfold wf256; cbn [q3 q2 q1 q0]; vm_compute; intuition congruence | reflexivity]. Qed.
+Lemma max128_is_max u : wf128 u -> val128 u <= val128 (mk128 (W - 1) (W - 1)).
+Proof. intros [H1 H0]. unfold val128; cbn [h1 h0]. pose proof W_val. nia. Qed.
+Lemma max256_is_max u : wf256 u -> val256 u <= val256 (mk256 (W - 1) (W - 1) (W - 1) (W - 1)).
+Proof. intros Hu. pose proof (val256_range u Hu). destruct max256_val as [_ E]. rewrite E. lia. Qed.
+Lemma zero128_val : val128 (mk128 0 0) = 0. Proof. reflexivity. Qed.
+Lemma zero256_val : val256 (mk256 0 0 0 0) = 0. Proof. reflexivity. Qed.
+Lemma one128_val : val128 (mk128 0 1) = 1. Proof. reflexivity. Qed.
+Lemma one256_val : val256 (mk256 0 0 0 1) = 1. Proof. reflexivity. Qed.
